@@ -70,6 +70,8 @@ AlignmentTable::AlignmentTable(Graph &graph, const NodesById &ignore) {
 }
 
 void AlignmentTable::addAlignments(const NodesById &nodes, const SepMatrix &matrix) {
+    // Nothing to do (and no last element to stop at) without nodes.
+    if (nodes.empty()) return;
     // Add alignments with transitive closure for each pair of distinct nodes.
     for (auto it = nodes.begin(); it != std::prev(nodes.end()); ++it) {
         for (auto jt = std::next(it); jt != nodes.end(); ++jt) {
